@@ -97,10 +97,17 @@ static void gen_addr(Node *node) {
     if (opt_fpic) {
       // Thread-local variable
       if (node->var->is_tls) {
+        // The stack must be 16-byte aligned at the call, whatever the
+        // enclosing expression has pushed.
+        bool pad = depth % 2;
+        if (pad)
+          println("  sub $8, %%rsp");
         println("  data16 lea %s@tlsgd(%%rip), %%rdi", node->var->name);
         println("  .value 0x6666");
         println("  rex64");
         println("  call __tls_get_addr@PLT");
+        if (pad)
+          println("  add $8, %%rsp");
         return;
       }
 
